@@ -154,7 +154,36 @@ def kernel_input(seed: int, n: Optional[int] = None, pattern: Optional[Tuple] = 
                     lb[j] = -float(rng.uniform(0.2, 2.0))
                     x[j] = lb[j] + abs(g[j]) * tj
                     ub[j] = np.inf if r.random() < 0.5 else x[j] + 3.0
-    return {"x": x, "g": g, "lb": lb, "ub": ub, "mats": mats, "n": n, "npairs": 0 if hist is None else len(hist[0]) - 1}
+    return {"x": x, "g": g, "lb": lb, "ub": ub, "mats": mats, "n": n, "npairs": 0 if hist is None else len(hist[0]) - 1, "hist": hist}
+
+
+# (the package's curvature test s.y > eps y.y is not invariant under a change of units — by design, as in the Fortran code — so the
+# twins keep b^2/a, the factor of s.y / y.y, within 2^±10: the same pairs are accepted)
+TWINS = [(4.0 ** -60, 2.0 ** -60), (4.0 ** -45, 2.0 ** -45), (4.0 ** -30, 2.0 ** -35), (4.0 ** 20, 2.0 ** 25)]
+
+
+def twin_factors(inp, k: int):
+    """(a, b): the same problem with the objective in other units (f -> a f) and the variables in other units (x -> b x), both powers
+    of two (a an even one, so that the Cholesky factors scale exactly too): every quantity the kernels compute is then the exact
+    multiple of its counterpart, and the outputs must be the exact multiples as well. Without pairs the model is the identity
+    whatever the units, so only a = b^2 is the same problem."""
+    if inp["hist"] is None:
+        b = [2.0 ** -60, 2.0 ** -20, 2.0 ** 25, 2.0 ** -45][k % 4]
+        return b * b, b
+    return TWINS[k % 4]
+
+
+def scaled_twin(inp, a: float, b: float):
+    from lbfgsb.bfgsmats import LBFGSB_MATRICES, update_lbfgs_matrices
+    n = inp["n"]
+    mats = LBFGSB_MATRICES(n)
+    if inp["hist"] is not None:
+        X0, G0 = inp["hist"]
+        X, G = deque([X0[0] * b]), deque([G0[0] * (a / b)])
+        for xn, gn in zip(X0[1:], G0[1:]):
+            mats = update_lbfgs_matrices(xn * b, gn * (a / b), X, G, 10, mats, False, 2.2e-16)
+    return {"x": inp["x"] * b, "g": inp["g"] * (a / b), "lb": inp["lb"] * b, "ub": inp["ub"] * b, "mats": mats, "n": n,
+            "npairs": inp["npairs"], "hist": None}
 
 
 PATTERN_ALPHABET = list(itertools.product(["lb", "ub", "in"], [-1, 0, 1], ["both", "lower", "upper", "none"]))
